@@ -220,6 +220,19 @@ class IrToPythonCompiler:
             self.emit(r"amount = amount % bits")
             self.emit("return x >> amount")
 
+        # Rotate left / right (on the unsigned bit pattern):
+        self.emit("@staticmethod")
+        with self.func_def("irol(x, amount, bits):"):
+            self.emit("amount = amount % bits")
+            self.emit("x = x % (1 << bits)")
+            self.emit("return (x << amount) | (x >> (bits - amount))")
+
+        self.emit("@staticmethod")
+        with self.func_def("iror(x, amount, bits):"):
+            self.emit("amount = amount % bits")
+            self.emit("x = x % (1 << bits)")
+            self.emit("return (x >> amount) | (x << (bits - amount))")
+
         with self.func_def("alloca(self, amount):"):
             self.emit("ptr = len(self.stack)")
             self.emit("self.stack.extend(bytes(amount))")
@@ -468,7 +481,12 @@ class IrToPythonCompiler:
         op = ins.operation
         int_ops = {"/": "rt.idiv", "%": "rt.irem"}
 
-        shift_ops = {">>": "rt.ishr", "<<": "rt.ishl"}
+        shift_ops = {
+            ">>": "rt.ishr",
+            "<<": "rt.ishl",
+            "rol": "rt.irol",
+            "ror": "rt.iror",
+        }
 
         if op in int_ops and ins.ty.is_integer:
             fname = int_ops[op]
